@@ -54,7 +54,11 @@ Judge(e) ==
           THEN Rej("C17.subframe-expands-to-block-size", e) ELSE TRUE
        /\ IF sOk /\ dOk /\ und # <<>> /\ und # e.dsamples THEN Rej("C17.structural-expansion-equals-decoder", e) ELSE TRUE
        /\ IF sOk /\ modelOk /\ und # <<>> /\ und # InterleaveFrame(f) THEN Rej("C17.structural-expansion-equals-format-model", e) ELSE TRUE
-       /\ IF sOk /\ modelOk /\ Has(e, "rewrite_same") /\ ~e.rewrite_same /\ f.hdr.num.len = MinimalLen(f.hdr.num.val) /\ ~f.hdr.num.big /\ f.hdr.reserved = 0
+       \* for every frame the structural parser accepts, valid or not: the model must have walked the frame to its end (only errors that
+       \* leave every field where it is) for its word on the padding bits to count; a refused write is a rewrite that differs
+       /\ IF sOk /\ f.hdr.errs = {} /\ f.hdr.num.len = MinimalLen(f.hdr.num.val) /\ ~f.hdr.num.big /\ f.hdr.reserved = 0
+             /\ f.errs \subseteq ((Lenient \cup {"residual out of range"}) \ {"nonzero padding", "subframe padding bit set"})
+             /\ ((Has(e, "rewrite_same") /\ ~e.rewrite_same) \/ Has(e, "rewrite_err"))
           THEN Rej("C17.rewrite-identical", e) ELSE TRUE
        /\ PrintT(<<"STAT", IF sOk THEN 1 ELSE 0, IF modelOk THEN 1 ELSE 0>>)
 Init == l = 1 /\ item = [id |-> 0]
